@@ -345,6 +345,54 @@ func ops(m *model, k int) (out []struct {
 		add(step{Op: "drop_recreate_table", SQL: []string{"DROP TABLE `u`", createSQL(u, "u")},
 			Expect: []expect{{"DS102", "u", []string{"DROP TABLE `u`"}}}}, m.clone())
 	}
+	// long files (more than 10 statements; the analyzers' loader treats long files specially):
+	// (a) five temporary tables created and dropped, then DROP TABLE u;
+	// (b) two rebuilds of which the one of t omits column b.
+	if m.table("u") != nil {
+		n := m.clone()
+		for i, x := range n.Tables {
+			if x.Name == "u" {
+				n.Tables = append(n.Tables[:i], n.Tables[i+1:]...)
+				break
+			}
+		}
+		var body []string
+		for i := 0; i < 5; i++ {
+			body = append(body, fmt.Sprintf("CREATE TABLE `tmpl%d_%d` (`id` integer)", k, i), fmt.Sprintf("DROP TABLE `tmpl%d_%d`", k, i))
+		}
+		body = append(body, "DROP TABLE `u`")
+		add(step{Op: "long_file_drop_table", SQL: body, Expect: []expect{{"DS102", "u", []string{"DROP TABLE `u`"}}}}, n)
+	}
+	if t != nil && t.col("b") != nil && m.table("u") != nil && len(m.table("u").Checks) == 0 && len(t.Idx) == 0 {
+		n := m.clone()
+		nt := n.table("t")
+		for i, c := range nt.Cols {
+			if c.Name == "b" {
+				nt.Cols = append(nt.Cols[:i], nt.Cols[i+1:]...)
+				break
+			}
+		}
+		n.table("u").Checks = []string{"id > 0"}
+		s1, _ := rebuild(m, "t", func(x *table) {
+			for i, c := range x.Cols {
+				if c.Name == "b" {
+					x.Cols = append(x.Cols[:i:i], x.Cols[i+1:]...)
+					break
+				}
+			}
+		})
+		s2, _ := rebuild(m, "u", func(x *table) { x.Checks = []string{"id > 0"} })
+		body := []string{"PRAGMA foreign_keys = off"}
+		for _, st := range append(s2, s1...) {
+			if !strings.HasPrefix(st, "PRAGMA") {
+				body = append(body, st)
+			}
+		}
+		body = append(body, "PRAGMA foreign_keys = on", fmt.Sprintf("CREATE TABLE `extra%d` (`id` integer)", k))
+		n.Tables = append(n.Tables, &table{Name: fmt.Sprintf("extra%d", k), Cols: []col{{"id", "integer", ""}}, Idx: map[string]string{}})
+		add(step{Op: "long_file_two_rebuilds_drop_column", SQL: body,
+			Expect: []expect{{"DS103", "b", []string{"CREATE TABLE `new_t`", "ALTER TABLE `t` DROP COLUMN `b`"}}}}, n)
+	}
 	// temporary table within one file
 	add(step{Op: "temp_table", SQL: []string{fmt.Sprintf("CREATE TABLE `tmpt%d` (`id` integer)", k), fmt.Sprintf("DROP TABLE `tmpt%d`", k)}}, m.clone())
 	return
@@ -542,7 +590,7 @@ func Run(r *report.Run) {
 	if r.Tier == "thorough" {
 		depth = 3
 	}
-	r.Rule = fmt.Sprintf("BFS to depth %d over schema evolutions of a two-table SQLite schema (add table, add nullable column, add index, drop column by ALTER, drop column by table rebuild, drop column (by ALTER / by rebuild) and add it back in the same file, drop table, drop table and create it again in the same file, change type by rebuild, add check by rebuild, drop VIRTUAL column, temporary table / temporary column inside one file, a rebuild directly followed by DROP TABLE, two rebuilds in one file); every history becomes a migration directory in which the last file is written by hand and, where the evolution can be expressed as a desired schema, also by the real `atlas migrate diff` (earlier files hand-written); x --latest N for every N<=depth; the real `atlas migrate lint` runs against a real SQLite dev database; states de-duplicated by the canonical schema model for expansion; non-trivial = every directory; distinct = (history, producer, N)", depth)
+	r.Rule = fmt.Sprintf("BFS to depth %d over schema evolutions of a two-table SQLite schema (add table, add nullable column, add index, drop column by ALTER, drop column by table rebuild, drop column (by ALTER / by rebuild) and add it back in the same file, drop table, drop table and create it again in the same file, change type by rebuild, add check by rebuild, drop VIRTUAL column, temporary table / temporary column inside one file, a rebuild directly followed by DROP TABLE, two rebuilds in one file, files of more than 10 statements ending in DROP TABLE / containing a column-dropping rebuild); every history becomes a migration directory in which the last file is written by hand and, where the evolution can be expressed as a desired schema, also by the real `atlas migrate diff` (earlier files hand-written); x --latest N for every N<=depth; the real `atlas migrate lint` runs against a real SQLite dev database; states de-duplicated by the canonical schema model for expansion; non-trivial = every directory; distinct = (history, producer, N)", depth)
 	r.Assumptions = []string{
 		"a file is destructive iff it removes a table or a non-virtual column that existed before the file (reference model of the evolution)",
 		"for a table rebuild the diagnostic position is the first statement of the CREATE/INSERT/DROP/RENAME group, as sqlitecheck documents",
